@@ -24,7 +24,8 @@ Lemma gen_core_call : forall scopes lit_str f args st,
   let '(st1, of) := wrapg L_Cond (pg_level f) (gen_core scopes lit_str f st) in
   let of := end_path of in
   let '(st2, s, calc) := gen_args scopes lit_str args st1 true in
-  (st2, {| g_val := lit "P(" ++ g_val of ++ lit ")(" ++ s ++ lit ")"; g_pas := None; g_calc := g_calc of ++ calc |}).
+  let v := lit "P(" ++ g_val of ++ lit ")(" ++ s ++ lit ")" in
+  (st2, {| g_val := v; g_pas := None; g_calc := g_calc of ++ calc; g_js := JOpaque L_Member v |}).
 Proof. reflexivity. Qed.
 
 Theorem C11_not_assignable_no_path :
